@@ -28,7 +28,7 @@ package random
 // Genesis export (C12, C18): every pending request is listed under its due height - several requests due at the same
 // height are all listed (the k-th one of that height, in queue order, at position k of the height's list).
 //@ func ExportGenesis(ctx, k)
-//@   property C12, C18
+//@   property C12, C13, C18
 //@   returns gs
 //@   uses cnt0(itseqof(rqueue), 0)
 //@   uses cntS(itseqof(rqueue), 0, 0)
@@ -37,4 +37,25 @@ package random
 //@   ensures complete: forall h:Int :: forall i:Bytes :: has(rqueue, h, i) ==> has(gs.PendingRandomRequests, keeper.HKEY(h))
 //@                        && 0 <= keeper.CNT(it_seq, itpos(h, i), h) && keeper.CNT(it_seq, itpos(h, i), h) < len(get(gs.PendingRandomRequests, keeper.HKEY(h)).Requests)
 //@                        && get(gs.PendingRandomRequests, keeper.HKEY(h)).Requests[keeper.CNT(it_seq, itpos(h, i), h)] == get(rqueue, h, i)
+//@ end
+
+// Genesis import (C12, C13, C18): every request listed in the genesis state is queued for the height it is listed under
+// (the decimal number that is the key of its list), under its own request id - whatever the height is in relation to
+// the height the chain restarts at, and however many requests share a height. The walk over the Go map visits every
+// height key exactly once, in an unspecified order.
+//@ define PR = data.PendingRandomRequests
+//@ define HOF(s) = uf("parse_int", s)
+//@ func InitGenesis(ctx, k, data)
+//@   property C12, C13, C18
+//@   modifies rqueue
+//@   invariant #1 pos:  0 <= mr_idx && mr_idx <= mr_n
+//@   invariant #1 done: forall hk:Str :: forall j:Int :: has(PR, hk) && mrpos(hk) < mr_idx && 0 <= j && j < len(get(PR, hk).Requests)
+//@                         ==> has(rqueue, HOF(hk), keeper.REQIDQ(get(PR, hk).Requests[j]))
+//@   invariant #2 pos:  1 <= mr_idx && mr_idx <= mr_n && rangeindex >= 0 - 1 && rangeindex < len(requests.Requests)
+//@   invariant #2 cur:  l_height == mr_seq[mr_idx - 1] && has(PR, l_height) && requests == get(PR, l_height)
+//@   invariant #2 done: forall hk:Str :: forall j:Int :: has(PR, hk) && mrpos(hk) < mr_idx - 1 && 0 <= j && j < len(get(PR, hk).Requests)
+//@                         ==> has(rqueue, HOF(hk), keeper.REQIDQ(get(PR, hk).Requests[j]))
+//@   invariant #2 part: forall j:Int :: 0 <= j && j <= rangeindex ==> has(rqueue, HOF(l_height), keeper.REQIDQ(requests.Requests[j]))
+//@   ensures all_queued: forall hk:Str :: forall j:Int :: has(PR, hk) && 0 <= j && j < len(get(PR, hk).Requests)
+//@                         ==> has(rqueue, HOF(hk), keeper.REQIDQ(get(PR, hk).Requests[j]))
 //@ end
